@@ -8,6 +8,15 @@ def R(build, shards=1, **kw):
 
 
 PLAN = {
+    "C01": {
+        "quick": [R("v0", 4), R("v1", 2), R("miri", 2, tree_borrows_odd=True, timeout=1500)],
+        "thorough": [R("v0", 16), R("v1", 8), R("v2", 8), R("asan", 8), R("tsan", 8, scale=0.25),
+                     R("miri", 16, tree_borrows_odd=True, timeout=7200)],
+    },
+    "C07": {
+        "quick": [R("v0", 3), R("v1", 3), R("miri", 1, timeout=1500)],
+        "thorough": [R("v0", 8), R("v1", 8), R("tsan", 4, scale=0.2), R("asan", 2, scale=0.3), R("miri", 6, timeout=7200)],
+    },
     "C02": {
         "quick": [R("v0", 4), R("miri", 2, timeout=1500)],
         "thorough": [R("v0", 16), R("v2", 4), R("asan", 4), R("miri", 8, timeout=7200)],
